@@ -3,6 +3,7 @@ package config
 import (
 	"fmt"
 	"os"
+	"strings"
 
 	"gopkg.in/yaml.v3"
 )
@@ -415,5 +416,28 @@ func (c *Config) validateLogging() error {
 	if c.Logging.Format != "" && !validLogFormats[c.Logging.Format] {
 		return fmt.Errorf("invalid log format: %s (valid: json, text, console)", c.Logging.Format)
 	}
+
+	// The ID headers are added to every proxied request: a name that is not an HTTP field name makes
+	// the backend transport refuse the request, and every request would be answered 502
+	if !isHeaderFieldName(c.Logging.RequestID.Header) {
+		return fmt.Errorf("invalid request ID header name: %q is not an HTTP field name", c.Logging.RequestID.Header)
+	}
+	if !isHeaderFieldName(c.Logging.Trace.Header) {
+		return fmt.Errorf("invalid trace header name: %q is not an HTTP field name", c.Logging.Trace.Header)
+	}
 	return nil
+}
+
+// isHeaderFieldName reports whether name, once surrounding blanks are dropped, is empty (the default
+// is used) or an RFC 7230 token
+func isHeaderFieldName(name string) bool {
+	for _, r := range strings.TrimSpace(name) {
+		switch {
+		case r >= 'a' && r <= 'z', r >= 'A' && r <= 'Z', r >= '0' && r <= '9':
+		case strings.ContainsRune("!#$%&'*+-.^_`|~", r):
+		default:
+			return false
+		}
+	}
+	return true
 }
